@@ -128,6 +128,20 @@ def check(run: Run) -> None:
         ok = any(pol and isinstance(a, ast.Compare) and isinstance(a.ops[0], ast.In) and "_global_functions" in ast.unparse(a.comparators[0]) for a, pol in fx.atoms) and fx.isinstance_of(("attr", V, "func"), {"ast.Name"})
         run.check(ok, "C09.R5", vc, stmt_of(c), "function processors only for registered function names", "process_function_call is reached for names that are not registered")
 
+    # the node a callback returns must get a recorded type, otherwise callbacks of methods chained on it never fire
+    for name in ("process_function_call", "process_parameterized_method_call", "process_method_call"):
+        fi = need(name)
+        fa_ = ctx.analysis(fi)
+        ft = ("attr", ("param", fi.pos_params[0]), "_found_types")
+        keys = set()
+        for n in own_nodes(fi):
+            if isinstance(n, ast.Assign) and isinstance(n.targets[0], ast.Subscript) and fa_.cfg.has_node(n) and strip_sites(fa_.term_of(n.targets[0].value)) == ft:
+                keys.add(strip_sites(fa_.term_of(n.targets[0].slice)))
+        for s_, n_ in fa_.returns():
+            rtm = strip_sites(fa_.term_of(s_.value, n_))
+            ok = all(any(a == k or a in unphi_terms(k) for k in keys) for a in unphi_terms(rtm))
+            run.check(ok, "C09.R2" if name != "process_method_call" else "C09.R1", fi, s_, f"{name} records the type of the node it returns", f"{name} returns {show(rtm)[:60]} without recording its type (recorded: {[show(k)[:30] for k in keys]}): a call chained on the rewritten call site is followed as Any and its class / method callbacks silently do not fire", "self._found_types[r_node] = return_type")
+
     # ---------------- R3
     sm = m.find_func("scan_for_metadata", in_module="func_adl.util_ast")
     finders = [c for c in m.classes.values() if c.parent_func is sm and m.is_visitor(c)]
